@@ -322,10 +322,10 @@ fn walk_expr<R: Reader<Offset = usize>>(ctl: &mut Ctl, expr: gimli::Expression<R
             Ok(RequiresWasmLocal { .. }) | Ok(RequiresWasmGlobal { .. }) | Ok(RequiresWasmStack { .. }) => {
                 eval.resume_with_wasm_value(Value::Generic(rng.next()))
             }
-            Ok(RequiresBaseType(_)) => {
+            Ok(RequiresBaseType(off)) => {
                 let t = [ValueType::Generic, ValueType::I8, ValueType::U8, ValueType::I16, ValueType::U16,
                     ValueType::I32, ValueType::U32, ValueType::I64, ValueType::U64, ValueType::F32, ValueType::F64]
-                    [rng.below(11) as usize];
+                    [off.0 % 11];
                 eval.resume_with_base_type(t)
             }
         };
@@ -952,6 +952,22 @@ pub fn run(t: &[&str]) -> String {
             secs.insert(t[2].to_string(), hex(t[4]));
             let mut rng = Rng(u(t[3]));
             run_family(t[1], &secs, &mut rng, None)
+        }
+        // c01.expr <address_size> <seed> <hex> — one expression: decode, then evaluate with synthetic answers
+        "c01.expr" => {
+            let asz: u8 = t[1].parse().unwrap_or(8);
+            let mut rng = Rng(u(t[2]));
+            let bytes = hex(t[3]);
+            let mut ctl = Ctl::new(bytes.len());
+            for (version, format) in [(5u16, Format::Dwarf32), (2, Format::Dwarf32), (4, Format::Dwarf64)] {
+                let enc = Encoding { format, version, address_size: asz };
+                let e = gimli::Expression(EndianSlice::new(&bytes, RunTimeEndian::Little));
+                walk_expr(&mut ctl, e, enc, &mut rng);
+            }
+            match ctl.fail {
+                Some(f) => f,
+                None => "fin".to_string(),
+            }
         }
         // c01.pair <family> <secA> <hexA> <secB> <hexB> <seed>
         "c01.pair" => {
